@@ -97,6 +97,11 @@ func runP1Big(args []string) error {
 			return fmt.Errorf("scenario %d: %v", idx, err)
 		}
 		a.Others["readme.txt"] = []byte("bystander")
+		for i, n := range names { // siblings with derived names (temporary-file / backup conventions): Repair must leave them alone
+			if i < 4 {
+				a.Others[n+[]string{".tmp", "~", ".bak", ".new"}[i]] = []byte("sibling of " + n)
+			}
+		}
 		a.Others["other/deep.bin"] = []byte{1}
 		{
 			unexpected := []string{}
@@ -142,6 +147,11 @@ func runP1Big(args []string) error {
 				return err
 			}
 			a.Others["readme.txt"] = []byte("bystander")
+			for i, n := range names { // siblings with derived names (temporary-file / backup conventions): Repair must leave them alone
+				if i < 4 {
+					a.Others[n+[]string{".tmp", "~", ".bak", ".new"}[i]] = []byte("sibling of " + n)
+				}
+			}
 			for _, nme := range names {
 				disk[nme] = prot[nme]
 			}
